@@ -1882,23 +1882,51 @@ def random_stack_case(rng):
 # add_sys_path under the scheduler
 # ---------------------------------------------------------------------------------------------
 
+def judge_returns(res, case, impl, exists, grain):
+    """From the property text (sys.path append guarded by a lock and membership test; every caller of a look-up gets
+    the object): a caller that RETURNED from add_sys_path(d) for a directory that exists imports from d next — d has to
+    be on sys.path at that moment, whatever the other threads are in the middle of (lean
+    `add_sys_path_returned_on_syspath`, `..._anyfs` when directories are created while the threads run).
+    `impl['rets']` = [thread, dir, dir in sys.path at return, ...] in order of return."""
+    for t, p, inpath, *rest in impl['rets']:
+        res.count('syspath:returns')
+        # rest[0] (set-operation grain): the call itself went through the not-exists branch (its own exists() test said
+        # no - the directory may have been created since); rest[1]: the directory exists at the moment of the return
+        own_no = bool(rest and rest[0])
+        there = rest[1] if len(rest) > 1 else p in exists
+        if there and not own_no and not inpath:
+            res.violation(case, f'thread {t} returned from add_sys_path(d{p}) - the directory exists - and d{p} is NOT on '
+                          f'sys.path at that moment (another thread is still before its append): the import that follows fails',
+                          signature={'clause': 'returned_on_syspath', 'grain': grain,
+                                     'history': ('missing-then-created' if p in case.get('missing0', []) else
+                                                 'created-while-running' if 1000 + p in case['sched'] else 'fresh')},
+                          impl={k: v for k, v in impl.items() if k != 'prefix_kept'})
+            return
+
+
 def run_syspath_impl(case, dirs):
     import pypyr.moduleloader as ml
     progs = case['threads']
     holder = {}
+    rets = []
 
     def do_add(p):
         def op(t, i):
-            ml.add_sys_path(dirs[p] if case.get('form', 'path') == 'path' else str(dirs[p]))
+            arg = dirs[p] if case.get('form', 'path') == 'path' else str(dirs[p])
+            ml.add_sys_path(arg)
+            # the caller's view at the moment the call returned (same turn: nothing runs in between)
+            rets.append([t, p, str(dirs[p]) in sys.path])
         return op
     sched = Sched([[do_add(p) for p in prog] for prog in progs])
     holder['sched'] = sched
     old_lock, old_known, old_missing = ml._sys_path_lock, ml._known_dirs, getattr(ml, '_missing_dirs', None)
     before = list(sys.path)
     ml._sys_path_lock = SchedLock(sched)
-    ml._known_dirs = set()
+    form = (lambda q: dirs[q]) if case.get('form', 'path') == 'path' else (lambda q: str(dirs[q]))
+    # the history of the process: the two sets as earlier calls left them
+    ml._known_dirs = {form(q) for q in case.get('known0', [])}
     if old_missing is not None:
-        ml._missing_dirs = set()
+        ml._missing_dirs = {form(q) for q in case.get('missing0', [])}
     try:
         sched.start()
         outcome = sched.run(case['sched'], finish=True)
@@ -1906,7 +1934,8 @@ def run_syspath_impl(case, dirs):
         strs = {str(d): p for p, d in dirs.items()}
         added = [strs.get(x, x) for x in after[len(before):]]
         known = sorted({strs.get(str(x), str(x)) for x in ml._known_dirs})
-        return {'sysPath': added, 'known': known, 'done': outcome == 'done',
+        missing = sorted({strs.get(str(x), str(x)) for x in getattr(ml, '_missing_dirs', ())})
+        return {'sysPath': added, 'known': known, 'missing': missing, 'done': outcome == 'done', 'rets': rets,
                 'prefix_kept': after[:len(before)] == before}
     finally:
         ml._sys_path_lock, ml._known_dirs = old_lock, old_known
@@ -1918,29 +1947,41 @@ def run_syspath_impl(case, dirs):
 def check_syspath(env, res):
     root = Path(tempfile.mkdtemp(prefix='c13sp')).resolve()
     try:
+        import pypyr.moduleloader as ml
+        has_missing = hasattr(ml, '_missing_dirs')
         dirs = {}
-        for p in range(3):
+        for p in range(4):
             dirs[p] = root / f'd{p}'
             if p != 2:
                 dirs[p].mkdir()
-        exists = [0, 1]
-        progsets = [[[0], [0]], [[0, 1], [1, 0]], [[0], [0], [0]], [[0, 2], [2, 0]], [[0, 0], [0]], [[1], [0, 1], [1]]]
+        exists = [0, 1, 3]
+        # (threads, _known_dirs, _missing_dirs as earlier calls left them): d3 was missing at an earlier call and exists now
+        progsets = [([[0], [0]], [], []), ([[0, 1], [1, 0]], [], []), ([[0], [0], [0]], [], []), ([[0, 2], [2, 0]], [], []),
+                    ([[0, 0], [0]], [], []), ([[1], [0, 1], [1]], [], [])]
+        if has_missing:
+            progsets += [([[3], [3]], [3], [3]), ([[3, 0], [3], [0, 3]], [3], [3]), ([[3, 3], [3]], [3], [3])]
         cases = []
-        for progs in progsets:
+        for progs, known0, missing0 in progsets:
             n = len(progs)
             total = sum(len(p) for p in progs)
             scheds = {tuple(s) for s in itertools.product(range(n), repeat=min(3 * total, 5 if env.quick else 7))}
             scheds = sorted(scheds)
             if len(scheds) > env.n(40, 400):
                 scheds = env.rng.sample(scheds, env.n(40, 400))
+            # one thread k turns ahead, then the others
+            scheds += [tuple([0] * k + [1] * 4 + [2 % n] * 4) for k in range(1, 5)]
             for s in scheds:
-                cases.append({'kind': 'syspath', 'threads': progs, 'sched': list(s), 'exists': exists})
+                cases.append({'kind': 'syspath', 'threads': progs, 'sched': list(s), 'exists': exists,
+                              'known0': known0, 'missing0': missing0})
         for case in cases:
             impl = run_syspath_impl(case, dirs)
             model = env.driver.ask('cache.syspath', threads=case['threads'], sched=case['sched'], exists=exists,
-                                   base=[], finish=True)
+                                   base=[], finish=True, known0=case['known0'], missing0=case['missing0'])
             res.case(case)
             res.count('syspath')
+            if case['known0']:
+                res.count('syspath:history')
+            judge_returns(res, case, impl, exists, 'lock')
             dup = [p for p in set(impl['sysPath']) if impl['sysPath'].count(p) > 1]
             if dup:
                 res.violation(case, f'sys.path holds {dup} more than once', signature={'clause': 'syspath_once'}, impl=impl)
@@ -1950,8 +1991,9 @@ def check_syspath(env, res):
             if impl['done'] and set(impl['sysPath']) != want:
                 res.violation(case, f'sys.path additions {impl["sysPath"]} but existing requested dirs are {sorted(want)}',
                               signature={'clause': 'syspath_added'}, impl=impl)
-            mi = {k: impl[k] for k in ('sysPath', 'known', 'done')}
-            if mi != model:
+            keys = ('sysPath', 'known', 'missing', 'done') if has_missing else ('sysPath', 'known', 'done')
+            mi = {k: impl[k] for k in keys}
+            if mi != {k: model[k] for k in keys}:
                 res.mismatch(case, model, mi)
     finally:
         shutil.rmtree(root, ignore_errors=True)
@@ -1962,30 +2004,49 @@ def run_syspath_fine_impl(case, dirs):
     operation: real threads interleaved between any two set operations, outside `_sys_path_lock`."""
     import pypyr.moduleloader as ml
     progs = case['threads']
+    rets = []
 
     def do_add(p):
         def op(t, i):
+            ml._missing_dirs.adds_by[t] = 0
             ml.add_sys_path(dirs[p])
+            # the caller's view at the moment the call returned (same turn: nothing runs in between)
+            rets.append([t, p, str(dirs[p]) in sys.path, ml._missing_dirs.adds_by[t] > 0, dirs[p].exists()])
         return op
     sched = Sched([[do_add(p) for p in prog] for prog in progs])
     old = (ml._sys_path_lock, ml._known_dirs, ml._missing_dirs)
+    made = []
     before = list(sys.path)
     ml._sys_path_lock = SchedLock(sched)
     ml._known_dirs = ParkSet(sched, 'known')
     ml._missing_dirs = ParkSet(sched, 'missing')
+    # the history of the process: the two sets as earlier calls left them (set up by this thread: no parking)
+    for q in case.get('known0', []):
+        set.add(ml._known_dirs, dirs[q])
+    for q in case.get('missing0', []):
+        set.add(ml._missing_dirs, dirs[q])
     try:
         sched.start()
-        outcome = sched.run(case['sched'], finish=True)
+        for e in case['sched']:
+            if e >= 1000:       # directory e-1000 is created at this moment, under the running threads
+                if not dirs[e - 1000].exists():
+                    dirs[e - 1000].mkdir()
+                    made.append(dirs[e - 1000])
+            else:
+                sched.turn(e)
+        outcome = sched.run([], finish=True)
         after = list(sys.path)
         strs = {str(d): p for p, d in dirs.items()}
         added = [strs.get(x, x) for x in after[len(before):]]
         known = sorted({strs.get(str(x), str(x)) for x in set(ml._known_dirs)})
         missing = sorted({strs.get(str(x), str(x)) for x in set(ml._missing_dirs)})
-        return {'sysPath': added, 'known': known, 'missing': missing, 'done': outcome == 'done',
+        return {'sysPath': added, 'known': known, 'missing': missing, 'done': outcome == 'done', 'rets': rets,
                 'prefix_kept': after[:len(before)] == before}
     finally:
         ml._sys_path_lock, ml._known_dirs, ml._missing_dirs = old
         sys.path[:] = before
+        for d in made:
+            d.rmdir()
 
 
 def check_syspath_fine(env, res, only=None):
@@ -1996,30 +2057,51 @@ def check_syspath_fine(env, res, only=None):
     root = Path(tempfile.mkdtemp(prefix='c13spf')).resolve()
     try:
         dirs = {}
-        for p in range(3):
+        for p in range(4):
             dirs[p] = root / f'd{p}'
             if p != 2:
                 dirs[p].mkdir()
-        exists = [0, 1]
+        exists = [0, 1, 3]
         if only is not None:
             cases = [only]
         else:
-            progsets = [[[0], [0]], [[0, 0], [0]], [[0, 1], [1, 0]], [[0], [0], [0]], [[2], [2]], [[0, 2], [2, 0]], [[2, 0, 2], [0, 2]]]
+            # (threads, _known_dirs, _missing_dirs as earlier calls left them): d3 was missing at an earlier call and
+            # exists now; d2 is missing still; d1 known and added before
+            progsets = [([[0], [0]], [], []), ([[0, 0], [0]], [], []), ([[0, 1], [1, 0]], [], []), ([[0], [0], [0]], [], []),
+                        ([[2], [2]], [], []), ([[0, 2], [2, 0]], [], []), ([[2, 0, 2], [0, 2]], [], []),
+                        ([[3], [3]], [3], [3]), ([[3], [3], [3]], [3], [3]), ([[3, 0], [0, 3]], [3], [3]),
+                        ([[3, 3], [3]], [3], [3]), ([[3, 2], [2, 3], [3]], [3, 2], [3, 2]), ([[0, 3], [3, 0]], [3], [3])]
             cases = []
-            for progs in progsets:
+            for progs, known0, missing0 in progsets:
                 n = len(progs)
                 total = sum(len(p) for p in progs)
                 # both threads pass the unlocked entry test before either adds; one thread runs ahead; random
                 scheds = [[i % n for i in range(8 * total)], [0] * 9 + [1] * 9, []]
-                scheds += [[env.rng.randrange(n) for _ in range(env.rng.randint(1, 9 * total))] for _ in range(env.n(25, 300))]
+                # thread 0 is k operations into its call when the next thread makes its whole call, then the third
+                scheds += [[0] * k + [1] * 9 + [2 % n] * 9 for k in range(1, 10)]
+                scheds += [[1] * k + [0] * 9 for k in range(1, 10, 2)]
+                scheds += [[env.rng.randrange(n) for _ in range(env.rng.randint(1, 9 * total))] for _ in range(env.n(20, 300))]
+                if any(2 in prog for prog in progs):
+                    # d2 is created while the threads run: after thread 0 has made k moves, and at a random moment
+                    scheds += [[0] * k + [1002] + [1] * 9 + [2 % n] * 9 for k in range(1, 8)]
+                    for _ in range(env.n(10, 150)):
+                        sc = [env.rng.randrange(n) for _ in range(env.rng.randint(1, 9 * total))]
+                        sc.insert(env.rng.randrange(len(sc) + 1), 1002)
+                        scheds.append(sc)
                 for sc in scheds:
-                    cases.append({'kind': 'syspathf', 'threads': progs, 'sched': sc, 'exists': exists})
+                    cases.append({'kind': 'syspathf', 'threads': progs, 'sched': sc, 'exists': exists,
+                                  'known0': known0, 'missing0': missing0})
         for case in cases:
             impl = run_syspath_fine_impl(case, dirs)
             model = env.driver.ask('cache.syspathf', threads=case['threads'], sched=case['sched'], exists=exists,
-                                   base=[], finish=True)
+                                   base=[], finish=True, known0=case.get('known0', []), missing0=case.get('missing0', []))
             res.case(case)
             res.count('syspath:fine')
+            if case.get('known0'):
+                res.count('syspath:fine:history')
+            if any(e >= 1000 for e in case['sched']):
+                res.count('syspath:fine:dir-created-meanwhile')
+            judge_returns(res, case, impl, exists, 'set-operation')
             dup = [p for p in set(impl['sysPath']) if impl['sysPath'].count(p) > 1]
             if dup:
                 res.violation(case, f'sys.path holds {dup} more than once', signature={'clause': 'syspath_once', 'grain': 'set-operation'},
@@ -2028,12 +2110,14 @@ def check_syspath_fine(env, res, only=None):
                 res.violation(case, 'prior sys.path entries were changed', signature={'clause': 'syspath_once', 'grain': 'set-operation'},
                               impl=impl)
             want = {p for prog in case['threads'] for p in prog if p in exists}
-            if impl['done'] and set(impl['sysPath']) != want:
+            created = {e - 1000 for e in case['sched'] if e >= 1000}
+            if impl['done'] and not (want <= set(impl['sysPath']) <= want | created):
                 res.violation(case, f'sys.path additions {impl["sysPath"]} but existing requested dirs are {sorted(want)}',
                               signature={'clause': 'syspath_added', 'grain': 'set-operation'}, impl=impl)
             if not impl['done']:
                 res.violation(case, 'add_sys_path calls blocked for ever', signature={'clause': 'progress', 'site': 'add_sys_path'}, impl=impl)
-            mi = {k: impl[k] for k in ('sysPath', 'known', 'missing', 'done')}
+            mi = {k: impl[k] for k in ('sysPath', 'known', 'missing', 'rets', 'done')}
+            mi['rets'] = [r[:4] for r in mi['rets']]
             if mi != model:
                 res.mismatch(case, model, mi)
     finally:
